@@ -10,6 +10,11 @@ RULE = ("exhaustive enumeration of every Element/Isotope object in vars(cherab.c
         "is non-trivial when at least one lookup/law was evaluated on a real registry object")
 ASSUMPTIONS = ["periodic table symbol->Z below is the independent reference",
                "species are the module-level objects of cherab.core.atomic.elements (what the package defines)"]
+TECHNIQUE = ("runtime monitoring: exhaustive run-time enumeration of the live registry against an independent periodic "
+             "table, lookup round trips in every spelling, eq/ne/hash law monitor over all ordered pairs")
+LEVEL_TEXT = ("Exhaustive exploration at run time: every Element/Isotope object the package defines is enumerated and driven "
+              "through every identifier spelling and every pair-wise equality/hash law; finite space, enumerated completely")
+LEVEL_NOTE = "trusted: the symbol->Z table in this module; species = module-level objects of cherab.core.atomic.elements"
 QUICK = dict(cases=300, workers=1, timecap=60)
 THOROUGH = dict(cases=20000, workers=4, timecap=300)
 REQUIRED = {"elements": 80, "isotopes": 250, "lookup": 3000, "pair_law": 100000, "line_law": 100}
